@@ -314,12 +314,78 @@ for _p in EXTRA7:
     ast.parse(_p)
 
 
+SLICE_ROOTS = [  # trees whose root is a slice container of its own (what get_slice() returns), every element line with a comment, no final newline
+    ('@a\n@b(1)  # c1\n@c  # c2', '_decorator_list'), ('for a in b  # c1\nfor c in d if e  # c2\nfor f in g  # c3', '_comprehensions'),
+    ('if a  # c1\nif b  # c2\nif c  # c3', '_comprehension_ifs'), ('a,  # c1\nb,  # c2\nc  # c3', 'Tuple'), ('a as b,  # c1\nc,  # c2\nd as e  # c3', '_withitems'),
+    ('x,  # c1\n*y,  # c2\nk=1  # c3', '_arglikes'), ('T,  # c1\n*U,  # c2\n**V  # c3', '_type_params'), ('m, n as o, p  # c3', '_aliases'),
+    ('a = b = c =', '_Assign_targets'), ('except A: pass  # c1\nexcept B: pass  # c2\nexcept C: pass  # c3', '_ExceptHandlers'),
+    ('case 1: pass  # c1\ncase 2: pass  # c2\ncase _: pass  # c3', '_match_cases'), ('x = 1  # c1\ny = 2  # c2\nz = 3  # c3', 'stmts'),
+    ('a |  # c1\nb |  # c2\nc  # c3', 'pattern'), ('a,  # c1\nb,  # c2\nc  # c3', 'pattern'),
+]
+
+
+def _ftoks(src):
+    """comment / token multisets of a fragment that may not tokenize on its own"""
+    t = toks(src)
+    if t is None:
+        t = toks('(\n' + src + '\n)')
+        if t is not None:
+            t = t - collections.Counter(['(', ')'])
+    return t
+
+
+def check_slice_root(fst, ri, res):
+    src, mode = SLICE_ROOTS[ri]
+    try:
+        root0 = fst.FST(src, mode)
+    except Exception as e:  # noqa: BLE001
+        res.fail(f'C07/sliceroot{ri}', 'slice-root-does-not-parse:' + e.__class__.__name__, f'{src!r} {mode} {e!r}', {}, None)
+        return
+    lst = first_list(root0.a)
+    n = len(lst) if lst is not None else 0
+    for opts in ({}, {'trivia': False}, {'trivia': ('all', 'all')}):
+        oid = ','.join(f'{k}={v!r}' for k, v in sorted(opts.items()))
+        for i in range(n):
+            for j in range(i + 1, n + 1):
+                cid = f'C07/sliceroot{ri}:{mode}/[{i}:{j}]/{oid}'
+                rep = {'sliceroot': ri}
+                res.evals += 1
+                res.transitions += 2
+                r1, r2 = fst.FST(src, mode), fst.FST(src, mode)
+                try:
+                    piece = r1.get_slice(i, j, **opts)
+                    cutp = r2.get_slice(i, j, cut=True, **opts)
+                except Exception as e:  # noqa: BLE001
+                    res.outcomes['sliceroot-refused:' + e.__class__.__name__] += 1
+                    continue
+                res.traces += 1
+                if r1.src != src:
+                    res.fail(cid, 'copy-disturbed-source-tree', f'src={src!r}\nnow={r1.src!r}', {'kind': 'sliceroot'}, rep)
+                    continue
+                if cutp.src != piece.src:
+                    res.fail(cid, 'cut-returns-something-else-than-copy', f'src={src!r}\ncopy={piece.src!r}\ncut={cutp.src!r}', {'kind': 'sliceroot'}, rep)
+                    continue
+                t0, t1, t2 = _ftoks(src), _ftoks(r2.src), _ftoks(cutp.src)
+                if t0 is None or t1 is None or t2 is None:
+                    res.outcomes['sliceroot-not-tokenizable'] += 1
+                    continue
+                if t0 != t1 + t2:
+                    res.fail(cid, 'tokens-not-conserved-by-cut', f'src={src!r}\nremainder={r2.src!r}\npiece={cutp.src!r}\nlost={dict(t0 - t1 - t2)} duplicated={dict(t1 + t2 - t0)}',
+                             {'kind': 'sliceroot'}, rep)
+                    continue
+                res.nontriv('sliceroot', ri, i, j, oid)
+                res.outcomes['sliceroot-ok'] += 1
+
+
 def shards(tier):
-    return [{'prog': i} for i in range(len(progs(tier)))]
+    return [{'prog': i} for i in range(len(progs(tier)))] + [{'sliceroot': i} for i in range(len(SLICE_ROOTS))]
 
 
 def run_shard(desc, tier, res):
     import fst
+    if 'sliceroot' in desc:
+        check_slice_root(fst, desc['sliceroot'], res)
+        return
     src = progs(tier)[desc['prog']]
     for what in enumerate_whats(src):
         w = (what[0], tuple(tuple(x) for x in what[1])) + tuple(what[2:])
@@ -330,6 +396,9 @@ def run_shard(desc, tier, res):
 
 def replay(rep, res):
     import fst
+    if 'sliceroot' in rep:
+        check_slice_root(fst, rep['sliceroot'], res)
+        return
     what = rep['what']
     w = (what[0], tuple(tuple(x) for x in what[1])) + tuple(what[2:])
     check_extract(fst, rep['prog'], progs('thorough')[rep['prog']], w, rep['opts'], res)
